@@ -323,6 +323,9 @@ PROPS["C16"] = dict(
         # sessions dominated by unchanged re-uploads (fully deduplicated files and sessions): the "success => reconstructible" clause without faults
         Job("sess-repeat-t1024-fragoff", engine="session", profile="smallchunk", env=senv(1024, 16384, 8, shard_min=4096, nranges=100000),
             workers=(3, 30), cases=(60, 400), time_s=(45, 800), args={"repeat-bias": True, "no-global": True}, **FULL),
+        # many concurrent files, a shard cut every few records: records lost by a race on the shared session state make a successful session unreconstructible
+        Job("sess-storm-t256-x1k", engine="session", profile="smallchunk", env=senv(256, 1024, 64, ib=512, shard_min=1024),
+            workers=(3, 30), cases=(40, 400), time_s=(45, 800), args={"storm": True, "max-files": 24, "max-file-bytes": 6000, "max-sessions": 2, "no-global": True}, **FULL),
     ],
     gates=dict(evaluations=(800, 15000), distinct=(100, 400),
                counters={"fault_runs_injected": (600, 8000), "sessions_with_every_single_fault_point_enumerated": (40, 300), "shard_uploads_order_checked": (150, 3000),
@@ -416,7 +419,7 @@ PROPS["C19"] = dict(
     level="fault_enumeration",
     custom="crash",
     technique="crash-point enumeration: the victim process is killed by strace (SIGKILL injected at the k-th file-system effect system call, which is not executed) and the directory is judged by a checker in a new process",
-    rule=("scenario = (operation in {shard flush, consolidation, LocalClient::put, DiskCache::put with eviction, DiskCache::initialize over a dirty directory}) x (prior history in {empty, populated, leftovers of an earlier crash; for the cache put also: sub-ranges of the key being put already cached, capacity not binding; for consolidation also: shards whose records are subsets of another's, so the merged shard's name already exists}) "
+    rule=("scenario = (operation in {shard flush, consolidation, LocalClient::put, DiskCache::put with eviction, DiskCache::initialize over a dirty directory}) x (prior history in {empty, populated, leftovers of an earlier crash; for the cache put also: sub-ranges of the key being put already cached, capacity not binding, and 'tight': capacity = prepared bytes + 10 so that the put must evict; for consolidation also: shards whose records are subsets of another's, so the merged shard's name already exists}) "
           "x seed x payload size; pass 1 traces an uninjected run and lists the effect calls (creating/truncating openat, write, pwrite, rename*, unlink*, mkdir*, rmdir, ftruncate, fsync, chmod/chown, link) issued by the operating thread "
           "between two marker calls; pass 2 re-runs the victim from a fresh copy of the prepared directory once per listed call with SIGKILL injected at that call; the checker requires every file under a final name "
           "(<hash>.mdb, default.<hash>, cache item name) to be complete and consistent with its name, every record retrievable before the operation to be retrievable (shard records, stored xorbs; cached chunks where no eviction is possible), and re-open to succeed; "
